@@ -13,7 +13,8 @@ from ..props import prop
 #    dropped", CHECKED by the recursion unwinding assertion (measured: without it symbolic execution of a single
 #    Vec::remove of a matched-endpoint entry does not finish in 900 s; with it 30 s).
 _DROP_TI = "_RINvNtCs8xvirJzNMvV_4core3ptr9drop_glueNtNtNtCs36Lg0Iv5OGD_8dust_dds6xtypes11type_object14TypeIdentifierEBH_"
-_CBMC = ["--unwindset", "memcmp.0:17,%s:1" % _DROP_TI]
+_CBMC = ["--unwindset", "memcmp.0:17,%s:1" % _DROP_TI]    # C36: TopicEntity (TkNone identifiers of the stub) is dropped
+_CBMC0 = ["--unwindset", "memcmp.0:17,%s:0" % _DROP_TI]   # no TypeIdentifier is ever dropped (type_information: None)
 # Loops bounded by function-name pattern (resolved against the goto binaries of each run by vlib/kani.py):
 _PATTERNS = [
     (r"StatusMask as std::iter::FromIterator", 14),   # DcpsStatusCondition::default(): 13 status kinds
@@ -31,9 +32,9 @@ prop(
     "C17",
     level="other",
     explanation="(in progress)", bounds="", outside="", level_text="", level_note="", technique="", assumptions=[],
-    timeout={"quick": 600, "thorough": 1800},
+    timeout={"quick": 420, "thorough": 1800},
     mem_gb=10,
-    cbmc_args=_CBMC,
+    cbmc_args=_CBMC0,
     unwind_patterns=_PATTERNS,
 )
 
@@ -41,7 +42,7 @@ prop(
     "C36",
     level="other",
     explanation="(in progress)", bounds="", outside="", level_text="", level_note="", technique="", assumptions=[],
-    timeout={"quick": 600, "thorough": 1800},
+    timeout={"quick": 420, "thorough": 1800},
     mem_gb=10,
     cbmc_args=_CBMC,
     unwind_patterns=_PATTERNS,
@@ -51,9 +52,9 @@ prop(
     "C16",
     level="other",
     explanation="(in progress)", bounds="", outside="", level_text="", level_note="", technique="", assumptions=[],
-    timeout={"quick": 600, "thorough": 1800},
+    timeout={"quick": 420, "thorough": 1800},
     mem_gb=10,
-    cbmc_args=_CBMC,
+    cbmc_args=_CBMC0,
     unwind_patterns=_PATTERNS,
 )
 
@@ -61,8 +62,8 @@ prop(
     "C03",
     level="other",
     explanation="(in progress)", bounds="", outside="", level_text="", level_note="", technique="", assumptions=[],
-    timeout={"quick": 600, "thorough": 1800},
+    timeout={"quick": 420, "thorough": 1800},
     mem_gb=10,
-    cbmc_args=_CBMC,
+    cbmc_args=_CBMC0,
     unwind_patterns=_PATTERNS,
 )
